@@ -284,6 +284,16 @@ func runC06(c *fw.Ctx) {
 	}
 }
 
+func isPow10(n int64) bool {
+	for n > 1 {
+		if n%10 != 0 {
+			return false
+		}
+		n /= 10
+	}
+	return n == 1
+}
+
 // compositions lists every way to write n as an ordered sum of k non-negative integers.
 func compositions(n, k int) [][]int {
 	if k == 1 {
@@ -304,7 +314,11 @@ func randomPortions(r *rng.R, k int) (heads []gen.Allot, ps []*big.Rat, vars []*
 	vals = map[string]string{}
 	// pick a denominator family
 	var den int64
-	switch r.Intn(4) {
+	switch r.Intn(6) {
+	case 4:
+		den = int64(pow(10, r.Range(8, 16))) // percentages with 6–14 decimals
+	case 5:
+		den = int64(r.U64()%999999999999) + 3000000000 // many-digit ratios
 	case 0:
 		den = int64(r.Range(1, 30))
 	case 1:
@@ -352,6 +366,11 @@ func randomPortions(r *rng.R, k int) (heads []gen.Allot, ps []*big.Rat, vars []*
 			txt, isPct = fmt.Sprintf("%d%%", parts[i]), true
 		} else if den == 100000 && r.Chance(2, 3) {
 			txt, isPct = fmt.Sprintf("%d.%03d%%", parts[i]/1000, parts[i]%1000), true
+		} else if den >= 100000000 && den%100000000 == 0 && isPow10(den) && r.Chance(2, 3) {
+			// p.qqqq…% with (digits(den)-3) decimals
+			dec := len(fmt.Sprint(den)) - 3
+			unit := den / 100
+			txt, isPct = fmt.Sprintf("%d.%0*d%%", parts[i]/unit, dec, parts[i]%unit), true
 		} else if r.Chance(1, 8) {
 			txt = strings.Replace(txt, "/", " / ", 1)
 		}
